@@ -54,6 +54,54 @@ thread_local! {
     static TL_INSTALLS_AT: RefCell<(u64, u64)> = const { RefCell::new((0, 0)) };
 }
 
+// ---------------------------------------------------------------------------------------------
+// event ring: what happened, in one global order, kept per thread (uncontended locks) and merged only
+// when a violation has to be explained
+
+type EvBuf = Arc<Mutex<std::collections::VecDeque<(u64, String)>>>;
+static EV_SEQ: AtomicU64 = AtomicU64::new(0);
+static EV_GEN: AtomicU64 = AtomicU64::new(1);
+static EV_BUFS: Mutex<Vec<EvBuf>> = Mutex::new(Vec::new());
+thread_local! {
+    static TL_EV: RefCell<(u64, Option<EvBuf>)> = const { RefCell::new((0, None)) };
+}
+
+fn ev(what: impl FnOnce() -> String) {
+    let n = EV_SEQ.fetch_add(1, Ordering::SeqCst);
+    let gen = EV_GEN.load(Ordering::Relaxed);
+    TL_EV.with(|t| {
+        let mut t = t.borrow_mut();
+        if t.0 != gen || t.1.is_none() {
+            let b: EvBuf = Arc::new(Mutex::new(std::collections::VecDeque::new()));
+            EV_BUFS.lock().unwrap_or_else(|e| e.into_inner()).push(b.clone());
+            *t = (gen, Some(b));
+        }
+        let role = TL_ROLE.with(|r| *r.borrow());
+        let tag = TL_TAG.with(|r| *r.borrow());
+        let mut b = t.1.as_ref().expect("buffer").lock().unwrap_or_else(|e| e.into_inner());
+        if b.len() >= 4000 {
+            b.pop_front();
+        }
+        b.push_back((n, format!("{}{tag} {}", ["?", "W", "R", "F", "C", "M", "X", "I"].get(role as usize).unwrap_or(&"?"), what())));
+    });
+}
+
+fn ev_reset() {
+    EV_GEN.fetch_add(1, Ordering::Relaxed);
+    EV_BUFS.lock().unwrap_or_else(|e| e.into_inner()).clear();
+}
+
+/// The last `last` events (all threads, global order) that pass `keep`.
+fn ev_dump(last: usize, keep: impl Fn(&str) -> bool) -> String {
+    let mut all: Vec<(u64, String)> = vec![];
+    for b in EV_BUFS.lock().unwrap_or_else(|e| e.into_inner()).iter() {
+        all.extend(b.lock().unwrap_or_else(|e| e.into_inner()).iter().filter(|(_, w)| keep(w)).cloned());
+    }
+    all.sort();
+    let from = all.len().saturating_sub(last);
+    all[from..].iter().map(|(n, w)| format!("{n}:{w}")).collect::<Vec<_>>().join(" | ")
+}
+
 fn set_thread(role: u8, tag: u64) {
     TL_TAG.with(|t| *t.borrow_mut() = tag);
     TL_ROLE.with(|t| *t.borrow_mut() = role);
@@ -66,6 +114,7 @@ fn site_id(site: &str) -> u8 {
 fn sched_hook(site: &'static str) {
     *SITE_HITS.lock().unwrap_or_else(|e| e.into_inner()).entry(site).or_insert(0) += 1;
     let role = TL_ROLE.with(|r| *r.borrow());
+    ev(|| format!("@{site}"));
     {
         let mut s = CUR_SIG.lock().unwrap_or_else(|e| e.into_inner());
         if s.len() < 64 {
@@ -242,6 +291,7 @@ impl Shared {
             return None;
         }
         *l.entry(s).or_insert(0) += 1;
+        ev(|| format!("snap {s} inflight={}", if f == NONE { "none".to_string() } else { f.to_string() }));
         Some(s)
     }
 
@@ -262,11 +312,13 @@ impl Shared {
         if m == 0 {
             return 0;
         }
-        match rng.below(4) {
+        let t = match rng.below(4) {
             0 => 0,
             1 | 2 => m - 1,
             _ => rng.below(m),
-        }
+        };
+        ev(|| format!("watermark {t} (min live/visible {m})"));
+        t
     }
 
     fn fail(&self, v: Violation) {
@@ -317,8 +369,11 @@ fn diagnose(sh: &Shared, ki: usize, s: u64) -> String {
         v
     };
     let log: Vec<String> = sh.log.read().unwrap_or_else(|e| e.into_inner())[ki].iter().rev().take(4).map(|(q, v)| format!("{q}:{}", v.as_ref().map_or("DEL".to_string(), |v| esc(&v[..v.len().min(8)])))).collect();
+    // the trail: installs, scheduling points, the writer's draw/apply/ack, watermarks, and this snapshot's opening
+    let me = format!("snap {s} ");
+    let trail = ev_dump(260, |w| !w.contains(" snap ") || w.contains(&me));
     format!(
-        "[diagnosis now: get@S={point:?}; newest internal entry={internal:?}; range(k..=k)@S={scan:?}; visible={} published={} inflight={}; last log records of the key (newest first)={log:?}; history={hist:?}]",
+        "[diagnosis now: get@S={point:?}; newest internal entry={internal:?}; range(k..=k)@S={scan:?}; visible={} published={} inflight={}; last log records of the key (newest first)={log:?}; history={hist:?}; EVENTS (global order; W writer, R reader, F flusher, C compactor, M major/drop_range, X rotator, I ingester)={trail}]",
         sh.visible.get(),
         sh.published.load(Ordering::Acquire),
         sh.inflight.load(Ordering::SeqCst)
@@ -359,6 +414,7 @@ fn writer(sh: &Shared, seed: u64, n_ops: usize) -> Result<(), Violation> {
             sh.inflight.store(s, Ordering::SeqCst);
             s
         };
+        ev(|| format!("draw {s}"));
         let n = if rng.chance(1, 6) { rng.range(2, 4) as usize } else { 1 };
         // 1. log the intent (a reader may already observe the write from here on)
         let mut recs: Vec<(usize, Option<Vec<u8>>)> = vec![];
@@ -394,12 +450,14 @@ fn writer(sh: &Shared, seed: u64, n_ops: usize) -> Result<(), Violation> {
             }
         }
         // 3. publish and acknowledge
+        ev(|| format!("applied {s} keys={:?}", recs.iter().map(|(ki, _)| *ki).collect::<Vec<_>>()));
         sh.visible.fetch_max(s + 1);
         for (ki, _) in &recs {
             sh.acked[*ki].fetch_add(1, Ordering::AcqRel);
         }
         sh.published.store(s + 1, Ordering::Release);
         sh.inflight.store(NONE, Ordering::SeqCst);
+        ev(|| format!("acked {s}"));
         sh.count("writes", 1);
         if rng.chance(1, 8) {
             std::thread::yield_now();
@@ -760,6 +818,7 @@ fn stress(seed: u64, case: u64, scratch: &Path, n_ops: usize) -> ExecResult {
     HOOK_SEED.store(seed ^ case.wrapping_mul(0x9E37), Ordering::Relaxed);
     DELAY_PERMILLE.store(*rng.pick(&[0, 100, 300, 600]), Ordering::Relaxed);
     reset_hook_stats();
+    ev_reset();
     let (sh, cfg, mut sample) = match setup(seed, case, &dir) {
         Ok(x) => x,
         Err(v) => return ExecResult { violations: vec![v], counters, sample: J::Null, hash: 0 },
@@ -936,6 +995,7 @@ fn scenario(seed: u64, case: u64, which: u64, scratch: &Path) -> ExecResult {
     let mut counters = Counters::new();
     DELAY_PERMILLE.store(0, Ordering::Relaxed);
     reset_hook_stats();
+    ev_reset();
     let (sh, cfg, mut sample) = match setup(seed, case, &dir) {
         Ok(x) => x,
         Err(v) => return ExecResult { violations: vec![v], counters, sample: J::Null, hash: 0 },
@@ -1102,6 +1162,10 @@ pub fn cmd(args: &Args) -> i32 {
     verif::set_version_installed_hook(Some(Arc::new(|path, versions| {
         hooks::INSTALL_COUNT.fetch_add(1, Ordering::Relaxed);
         let sv = versions.latest_version();
+        {
+            let (ver, seq, sealed, active) = verif::super_version_parts(&sv);
+            ev(|| format!("INSTALL v{} seq={seq} active=m{active} sealed={sealed:?} tables={} retained={}", ver.id(), ver.table_count(), versions.len()));
+        }
         hooks::INSTALLS.lock().unwrap_or_else(|e| e.into_inner()).push((path.to_path_buf(), sv));
         on_install();
     })));
@@ -1216,6 +1280,10 @@ pub fn replay(j: &J, scratch: &Path) -> i32 {
     verif::set_version_installed_hook(Some(Arc::new(|path, versions| {
         hooks::INSTALL_COUNT.fetch_add(1, Ordering::Relaxed);
         let sv = versions.latest_version();
+        {
+            let (ver, seq, sealed, active) = verif::super_version_parts(&sv);
+            ev(|| format!("INSTALL v{} seq={seq} active=m{active} sealed={sealed:?} tables={} retained={}", ver.id(), ver.table_count(), versions.len()));
+        }
         hooks::INSTALLS.lock().unwrap_or_else(|e| e.into_inner()).push((path.to_path_buf(), sv));
         on_install();
     })));
